@@ -233,6 +233,63 @@ func hammer() {
 	}
 }
 
+// largeEntries: the same free-running history with bundles whose entry file exceeds 32 MiB (a 20 MiB base plus a 6 MiB
+// delta CRL, base64 in JSON): "complete" does not depend on the size of what a writer stored.
+func largeEntries() {
+	far := time.Now().Add(20 * 365 * 24 * time.Hour)
+	n := 4
+	ids := make([]int64, n)
+	lib.Parallel(n, 4, func(i int) {
+		idMu.Lock()
+		id := nextID
+		nextID++
+		idMu.Unlock()
+		os.WriteFile(filepath.Join(bundleDir, fmt.Sprintf("%d.der", id)), lib.MintBigCRL(id, far, 20<<20+i*4099, byte(i)).Raw, 0o644)
+		os.WriteFile(filepath.Join(bundleDir, fmt.Sprintf("%d.delta.der", id)), lib.MintBigCRL(id+1_000_000_000, far, 6<<20+i*4099, byte(i+50)).Raw, 0o644)
+		ids[i] = id
+	}, nil)
+	dir := filepath.Join(scratch, "large")
+	os.MkdirAll(dir, 0o755)
+	// two (uninstrumented) worker processes, each one writer and two readers, started together
+	start := hist.MonoNow() + int64(150*time.Millisecond)
+	var cmds []*exec.Cmd
+	var outs []string
+	for p := 0; p < 2; p++ {
+		sp := hist.RunSpec{Dir: dir, Proc: p + 1, URLs: []string{"http://crl.example/large.crl"}, BundleDir: bundleDir, Readers: 2, ReadsEach: r.N(10, 30), ReadGapUS: 60000,
+			Seed: r.Rand(fmt.Sprintf("large-%d", p)).U64(), SharedCache: p == 0, StartAt: start, Out: filepath.Join(scratch, fmt.Sprintf("large-%d.hist", p)), WriterIDs: [][]int64{ids[2*p : 2*p+2]}}
+		specPath := filepath.Join(scratch, fmt.Sprintf("large-%d.spec", p))
+		b, _ := json.Marshal(sp)
+		os.WriteFile(specPath, b, 0o644)
+		cmd := exec.Command(workerBin, "cache-run", specPath)
+		cmd.Stderr = os.Stderr
+		if err := cmd.Start(); err != nil {
+			panic(err)
+		}
+		cmds = append(cmds, cmd)
+		outs = append(outs, sp.Out)
+	}
+	var events []hist.Event
+	for i, c := range cmds {
+		if err := waitTimeout(c, 5*time.Minute); err != nil {
+			r.Inconclusive(fmt.Sprintf("large-entry worker %d failed: %v", i, err))
+			continue
+		}
+		var ev []hist.Event
+		b, _ := os.ReadFile(outs[i])
+		json.Unmarshal(b, &ev)
+		events = append(events, ev...)
+	}
+	findings, st := hist.Check(events, 60*time.Second)
+	report(findings, "large-entries", nil)
+	addStats("large", st)
+	r.Eval("large-entries-history")
+	os.RemoveAll(dir)
+	for _, id := range ids {
+		os.Remove(filepath.Join(bundleDir, fmt.Sprintf("%d.der", id)))
+		os.Remove(filepath.Join(bundleDir, fmt.Sprintf("%d.delta.der", id)))
+	}
+}
+
 // ---------------------------------------------------------------- monitor 2
 
 func stressCrossProcess() {
@@ -994,6 +1051,7 @@ func main() {
 		timed("crash-by-hook", crashByHook)
 	}
 	timed("hammer", hammer)
+	timed("large-entries", largeEntries)
 	timed("crash-by-strace", crashByStrace)
 	timed("faults-by-strace", faultsByStrace)
 	timed("faults-by-file-size-limit", faultsByFileSizeLimit)
@@ -1010,6 +1068,7 @@ func main() {
 	r.RequireAtLeast("fault-points-by-file-size-limit", 8)
 	r.RequireAtLeast("fault-points-set-reported-error", 8)
 	r.RequireAtLeast("hammer-hits", 5000)
+	r.RequireAtLeast("large-hits", 3)
 	if hooked {
 		r.RequireAtLeast("interleavings-executed", 140)
 		r.RequireAtLeast("crash-points-by-hook", 8)
